@@ -261,6 +261,14 @@ class Report:
                                   'inputs': _short(c.get('inputs')), 'out': out[-300:]})
         return ok
 
+    def probe(self, name, c):
+        """fallback for an obligation the solver left undecided: a concrete probe of the real code (the replay script of the
+        obligation on fixed inputs).  A reproduction is a confirmed counterexample; no reproduction changes nothing (the
+        obligation stays inconclusive)."""
+        self.probes = getattr(self, 'probes', 0) + 1
+        ok, out = self.replay(name, c)
+        return ok
+
     def _cvc5(self, name, ctx, claim, extra, timeout_ms):
         try:
             from .cvc5x import cvc5_check
